@@ -74,6 +74,24 @@ def f1_record_liveness(F, r):
                 r.ok(inst, "parameter consumed")
             else:
                 r.fail(inst, "value parsed from the instance file is passed to the builder but never used", F.loc(fid))
+                continue
+            # record-typed parameters (time windows ...): every field of the record is consumed, unless the value is passed on whole
+            pty = fn["locals"][i].lstrip("&").strip()
+            ad = F.adts.get(pty)
+            if ad and ad["kind"] == "struct" and 2 <= len(ad["v"][0]["f"]) <= 4 and pty.startswith("vrp_core::models::common"):
+                whole = any(where[0] == "t" and not o["p"] for where, o in mir.uses_of_local(fn, i))
+                reads = set()
+                for g in F.family(fid):
+                    for p_ in util.all_places(F.fns[g]):
+                        for a_, f_ in mir.proj_fields(p_):
+                            if a_ == pty:
+                                reads.add(f_)
+                for f_ in ad["v"][0]["f"]:
+                    inst2 = f"{util.short_fn(fid)}({nm}.{f_['n']})"
+                    if whole or f_["n"] in reads:
+                        r.ok(inst2, "record field consumed")
+                    else:
+                        r.fail(inst2, f"the `{f_['n']}` part of the parsed {pty.split('::')[-1]} is never used when the problem is built (e.g. depot ready time / due date ignored)", F.loc(fid))
 
 
 def f2_load_types_and_features(F, r):
